@@ -25,6 +25,8 @@ type tierCfg struct {
 	budget         time.Duration
 	shrinkEvals    int
 	boundaryGroups int
+	marathons      int
+	marathonLen    int
 }
 
 func cfgFor(prop, tier string) tierCfg {
@@ -32,9 +34,9 @@ func cfgFor(prop, tier string) tierCfg {
 	switch prop {
 	case "C15":
 		if quick {
-			return tierCfg{pool: 420, scenarios: 520, profile: Profile{MaxLen: 330, MaxRSEcc: 68, ScaleMax: 160}, maxOps: 50, budget: 4 * time.Minute, shrinkEvals: 120, boundaryGroups: 10}
+			return tierCfg{pool: 420, scenarios: 520, profile: Profile{MaxLen: 330, MaxRSEcc: 68, ScaleMax: 160}, maxOps: 50, budget: 4 * time.Minute, shrinkEvals: 120, boundaryGroups: 10, marathons: 4, marathonLen: 700}
 		}
-		return tierCfg{pool: 5000, scenarios: 9000, profile: Profile{MaxLen: 2960, MaxRSEcc: 200, ScaleMax: 400, HeavyTail: true}, maxOps: 250, budget: 50 * time.Minute, shrinkEvals: 300, boundaryGroups: 40}
+		return tierCfg{pool: 5000, scenarios: 9000, profile: Profile{MaxLen: 2960, MaxRSEcc: 200, ScaleMax: 400, HeavyTail: true}, maxOps: 250, budget: 50 * time.Minute, shrinkEvals: 300, boundaryGroups: 40, marathons: 40, marathonLen: 6000}
 	case "C16":
 		if quick {
 			return tierCfg{pool: 360, scenarios: 420, raceFrac: 0.3, profile: Profile{MaxLen: 110, MaxRSEcc: 68, ScaleMax: 120}, maxOps: 4, maxW: []int{2, 2, 3, 4, 4, 8, 16}, budget: 4 * time.Minute, shrinkEvals: 120, boundaryGroups: 10}
@@ -307,6 +309,43 @@ func genC15(seed uint64, cfg tierCfg) ([]*Scenario, []Call) {
 		}
 		scs = append(scs, sc)
 	}
+	// process-level variation: the reference always runs with GOMAXPROCS=2 and no forced GC
+	for _, sc := range scs {
+		r := &rng{s: mix(sc.Seed, 4711)}
+		for i := range sc.Segments {
+			if r.chance(0.3) {
+				sc.Segments[i].GCPct = []int{5, 25, 100}[r.intn(3)]
+			}
+			if r.chance(0.4) {
+				sc.Segments[i].Procs = []int{1, 3, 4, 8, 16}[r.intn(5)]
+			}
+		}
+	}
+	// marathons: very long histories of cheap calls over a small set (counters that wrap, free lists and
+	// LRUs that only misbehave when full, slices re-sliced a little further on every call)
+	for k := 0; k < cfg.marathons; k++ {
+		r := &rng{s: mix(seed, 15, 9, uint64(k))}
+		var cheap []Call
+		for len(cheap) < r.rangeIn(3, 24) {
+			c := genFamily(r, Profile{MaxLen: 24, MaxRSEcc: 20, ScaleMax: 60}, families[r.intn(len(families))])
+			if c.Fn == "aztec" && len(c.B) > 40 {
+				continue
+			}
+			cheap = append(cheap, c)
+		}
+		n := cfg.marathonLen
+		if k%8 == 7 {
+			n *= 12 // the occasional very long one
+		}
+		var prog []Call
+		for i := 0; i < n; i++ {
+			prog = append(prog, cheap[r.intn(len(cheap))])
+		}
+		// a marathon of ONE family half of the time (per-package state)
+		sc := &Scenario{ID: 3_000_000 + k, Seed: mix(seed, 15, 10, uint64(k)), Property: "C15", Note: "marathon",
+			Segments: []Segment{{Kind: "calls", Seed: r.next(), Policy: Policy{Name: "fifo"}, MapMode: r.intn(5), Phases: [][][]Call{{prog}}}}}
+		scs = append(scs, sc)
+	}
 	return scs, pool
 }
 
@@ -410,6 +449,12 @@ func genC16(seed uint64, cfg tierCfg) ([]*Scenario, []Call) {
 		if r.chance(0.25) {
 			seg.ClockNs = int64(40*365*24*time.Hour) + int64(r.next()%uint64(400*24*time.Hour))
 			seg.JumpPct = []int{0, 10, 40}[r.intn(3)]
+		}
+		if r.chance(0.2) {
+			seg.GCPct = []int{5, 25, 100}[r.intn(3)]
+		}
+		if r.chance(0.4) {
+			seg.Procs = []int{1, 3, 4, 8, 16}[r.intn(5)]
 		}
 		sc.Segments = []Segment{seg}
 		scs = append(scs, sc)
